@@ -14,6 +14,7 @@
 -/
 import AioftpModel.Properties.C05
 import AioftpModel.Model.Abort
+import AioftpModel.Lemmas.Framing
 
 namespace C14
 open Model Model.Abort Generated
@@ -104,5 +105,43 @@ theorem idle_abor_is_only_an_answer (cfg : Cfg) (w : World) (s : SState) (rest :
 open Model.Session in
 example : (body ⟨[], none, false⟩ ⟨[], none, []⟩ { user := some 0, logged := true, passive := true, dataConn := true } .abor [] ⟨1, []⟩ []).2.1.dataConn = true := by
   simp [body]
+
+/-! ### the client's half: `Client.abort()` against any spelling of the two replies -/
+
+/-- **client_abort_reads_exactly_its_replies.**  `Client.abort()` is `command("ABOR", "226", "426")`: replies that match
+    `426` are waited through, the `226` decides.  Whatever way the peer spells the two replies - one line each, or
+    multi-line with body lines that repeat the code, are indented, or are plain text (`ContLine`), any number of them -
+    the call consumes exactly those two replies: it returns the 226 and the stream stands at whatever the peer sends
+    next (`R`), so the command that follows reads ITS reply. -/
+theorem client_abort_reads_exactly_its_replies (enc : Py.Encoding) (a b ta tb : Py.Str) (midA midB : List (Py.Str × Py.Str))
+    (hA : ∀ p ∈ midA, ContLine "426".toList p.1 p.2) (hB : ∀ p ∈ midB, ContLine "226".toList p.1 p.2)
+    (heA : ∀ x ∈ ("426".toList ++ '-' :: a) :: midA.map (·.1) ++ ["426".toList ++ ' ' :: ta],
+      (Py.encode enc (x ++ eol)).isSome = true)
+    (heB : ∀ x ∈ ("226".toList ++ '-' :: b) :: midB.map (·.1) ++ ["226".toList ++ ' ' :: tb],
+      (Py.encode enc (x ++ eol)).isSome = true) (R : List Py.Bytes) :
+    commandLoop enc ["426".toList]
+        ((("426".toList ++ '-' :: a) :: midA.map (·.1) ++ ["426".toList ++ ' ' :: ta]).map (encLine enc) ++
+          ((("226".toList ++ '-' :: b) :: midB.map (·.1) ++ ["226".toList ++ ' ' :: tb]).map (encLine enc) ++ R)) =
+      (.ok ("226".toList, ('-' :: Py.rstrip b) :: midB.map (·.2) ++ [lastInfo tb]), R) := by
+  have d426 : Digits3 "426".toList := ⟨rfl, by decide⟩
+  have d226 : Digits3 "226".toList := ⟨rfl, by decide⟩
+  rw [commandLoop_ok (parse_foreign_multi d426 a midA ta hA heA _)]
+  rw [if_pos (by decide)]
+  rw [commandLoop_ok (parse_foreign_multi d226 b midB tb hB heB _)]
+  rw [if_neg (by decide)]
+
+/-- the same when the interrupted transfer's 426 is one line and so is the 226 (what aioftp's own server sends) -/
+theorem client_abort_reads_exactly_its_replies_single (enc : Py.Encoding) (ta tb : Py.Str)
+    (heA : (Py.encode enc (("426".toList ++ ' ' :: ta) ++ eol)).isSome = true)
+    (heB : (Py.encode enc (("226".toList ++ ' ' :: tb) ++ eol)).isSome = true) (R : List Py.Bytes) :
+    commandLoop enc ["426".toList]
+        (encLine enc ("426".toList ++ ' ' :: ta) :: encLine enc ("226".toList ++ ' ' :: tb) :: R) =
+      (.ok ("226".toList, [lastInfo tb]), R) := by
+  have d426 : Digits3 "426".toList := ⟨rfl, by decide⟩
+  have d226 : Digits3 "226".toList := ⟨rfl, by decide⟩
+  rw [commandLoop_ok (parse_written_single d426 ta heA _)]
+  rw [if_pos (by decide)]
+  rw [commandLoop_ok (parse_written_single d226 tb heB _)]
+  rw [if_neg (by decide)]
 
 end C14
